@@ -100,6 +100,39 @@ theorem isodep_response_exact (cfg : CardCfg) (F : Nat) (pcd : Pcd) (cmd : Bytes
 example : (exchange (isoPeer ⟨2, 1, 1, 1, 3, fun n c => c ++ [n, 0x90, 0]⟩) 20 ⟨0, 2, 5, 5⟩ [1, 2, 3, 4, 5]
     ⟨Card.init, [.d, .l, .l, .d, .c, .d, .d, .e, .d, .d, .d, .l], []⟩).2.2 = .ok [1, 2, 3, 4, 5, 0, 0x90, 0] := by decide
 
+/-- **send_apdu.** When `send_apdu(..., check_status=True)` returns `x`, the card executed exactly one command, namely
+the ISO 7816-4 encoding of the arguments, and answered `x` followed by the status word 9000; any other status word
+is raised as `Type4TagCommandError(SW)`. -/
+theorem isodep_send_apdu_exact (cfg : CardCfg) (F : Nat) (pcd : Pcd) (ext : Bool) (cla ins p1 p2 : Nat) (data : Bytes)
+    (mrl : Nat) (w : World Card) (hp : pcd.pni < 2) (hs : Sync pcd.pni w.card) (x : Bytes)
+    (hx : (sendApdu (isoPeer cfg) F pcd ext cla ins p1 p2 data mrl true w).2.2 = .ok x) :
+    ∃ apdu, encodeApdu ext cla ins p1 p2 data mrl = .ok apdu ∧
+      (sendApdu (isoPeer cfg) F pcd ext cla ins p1 p2 data mrl true w).1.card.log = w.card.log ++ [apdu] ∧
+      cfg.app w.card.log.length apdu = x ++ [0x90, 0x00] := by
+  unfold sendApdu at hx ⊢
+  cases henc : encodeApdu ext cla ins p1 p2 data mrl with
+  | error e => simp [henc] at hx
+  | ok apdu =>
+    simp only [henc] at hx ⊢
+    refine ⟨apdu, rfl, ?_⟩
+    cases hex : (exchange (isoPeer cfg) F pcd apdu w).2.2 with
+    | error e => simp [hex] at hx
+    | ok rsp =>
+      simp only [hex] at hx ⊢
+      obtain ⟨hr, hlog, _, _⟩ := isodep_response_exact cfg F pcd apdu w hp hs rsp hex
+      refine ⟨hlog, ?_⟩
+      rw [← hr]
+      unfold checkStatus at hx
+      by_cases hlen : rsp.length < 2
+      · simp [hlen] at hx
+      · by_cases hsw : rsp.drop (rsp.length - 2) = [0x90, 0x00]
+        · simp [hlen, hsw] at hx
+          rw [← hx, ← hsw, List.take_append_drop]
+        · simp [hlen, hsw] at hx
+
+example : (sendApdu (isoPeer ⟨3, 0, 0, 0, 1, fun _ c => c.take 2 ++ [0x90, 0]⟩) 20 ⟨0, 4, 2, 2⟩ false 0 0xB0 0 0 [] 2 true
+    ⟨Card.init, [.d, .l, .c], []⟩).2.2 = .ok [0, 0xB0] := by decide
+
 /-- **Error kind.** Whatever the card does (any `Peer`, not only the ISO PICC), every fault script:
 if `exchange` raises, it raises `Type4TagCommandError` with errno `TIMEOUT_ERROR`, `RECEIVE_ERROR` or
 `PROTOCOL_ERROR` - no `IndexError`, no raw `nfc.clf` exception.  (`outOfFuel` is not a Python exception:
